@@ -686,6 +686,23 @@ func chooseKind(kind byte, n int, label string) int {
 	return c
 }
 
+// LiveThreads returns the number of managed threads other than the caller that have not finished.
+//
+//go:norace
+func LiveThreads() int {
+	s := active
+	if s == nil {
+		return 0
+	}
+	n := 0
+	for _, t := range s.threads {
+		if t != s.cur && t.st != tsDone {
+			n++
+		}
+	}
+	return n
+}
+
 // Env returns the per-execution harness state.
 //
 //go:norace
